@@ -25,6 +25,7 @@
 #include <boost/mpl/if.hpp>
 
 #include "galois/config.h"
+#include "galois/substrate/Verif.h"
 #include "galois/worklists/Simple.h"
 
 namespace galois {
@@ -104,6 +105,7 @@ public:
     galois::optional<value_type> ret = local.getLocal()->pop();
     if (ret)
       return ret;
+    GALOIS_VERIF_POINT(LQ_POP_GLOBAL);
     return popGlobal();
   }
 };
